@@ -1,7 +1,81 @@
-(* Property C01 — placeholder while the proofs are being written (replaced below). *)
-From Coq Require Import List NArith Bool.
-From Fw Require Import Model Spec Run.
+(* Property C01 — Data is delivered exactly to the faces with a matching pending Interest.
+   Only theorem statements closed by `exact`, each followed by Print Assumptions.
+
+   Reading guide.  [run s0 [] 0 h] executes the history h (events with the implementation's oracle choices) on the forwarder
+   model from state s0 and, in lock step, maintains the flat pending table of Spec.v from the history alone (spec_step):
+   an Interest the forwarder took as pending adds/refreshes the record of its face (downstream token, own lifetime,
+   upstream token of its group), a Data arrival removes the records it satisfies (sat_rec: token echo, or name rule when
+   the Data carries no token in this forwarder's format), a PIT update removes groups past the largest lifetime recorded
+   in them.  [mono 0 h] says time stamps never go back.  The initial state is arbitrary except for an empty PIT. *)
+From Coq Require Import List NArith Bool Lia.
+From Fw Require Import Model Spec Run Lemmas Inv Refine C01.
 Import ListNotations.
 Open Scope N_scope.
-Example c01_placeholder : sub_multiset [(1, [])] [(2, [1]); (1, [])] = true.
-Proof. vm_compute. reflexivity. Qed.
+
+(* The abstraction relation Inv ties the model's PIT to the pending table after every history: every in-record is a
+   possibly-pending record of the table with the same face, group, downstream token (rel_A: in-records ⊆ may), every
+   record still inside its own lifetime is an in-record (rel_B: must ⊆ in-records), and entries expire no later than
+   their group in the table (rel_C, rel_D). *)
+Theorem fw_refines_pending : forall (h : history) s0, pit s0 = [] -> mono 0 h ->
+  let '(s, sp, t) := run s0 [] 0 h in Inv t (pit s) sp.
+Proof.
+  exact (fun h s0 P0 M => run_inv h s0 [] 0 (eq_ind_r (fun p => Inv 0 p []) Inv_init P0) M).
+Qed.
+Print Assumptions fw_refines_pending.
+
+(* Data arriving after any history is emitted only as copies of itself, each matched injectively by a pending record of
+   that face which the Data satisfies, carrying the PIT token that face supplied (a); and every face other than the
+   arrival face that holds a satisfied pending Interest still inside its lifetime gets its copy, scope permitting (b). *)
+Theorem c01_data_delivery : forall s0 (h : history) now d ch,
+  pit s0 = [] -> mono 0 (h ++ [(EData now d, ch)]) ->
+  let '(s, sp, _) := run s0 [] 0 h in
+  c01_data_only_pending (faces s) (tid s) sp d (r_outs (step s (EData now d) ch)) = true /\
+  c01_data_complete (faces s) (tid s) now sp d (r_outs (step s (EData now d) ch)) = true.
+Proof. exact data_delivery_history. Qed.
+Print Assumptions c01_data_delivery.
+
+(* The pending Interests are consumed: after a Data that was accepted (its face exists, no inbound scope violation), a
+   later copy with the same name and token — from any face, at any later time, after any events that are not
+   Interests — is delivered to nobody. *)
+Theorem c01_repeat_data_silent : forall s0 (h h2 : history) now d ch now' d' ch',
+  pit s0 = [] -> mono 0 (h ++ (EData now d, ch) :: h2 ++ [(EData now' d', ch')]) ->
+  forallb (fun ec => not_interest (fst ec)) h2 = true ->
+  d_name d' = d_name d -> d_tok d' = d_tok d ->
+  (let '(s, _, _) := run s0 [] 0 h in data_effective (faces s) d = true) ->
+  let '(s2, _, _) := run s0 [] 0 (h ++ (EData now d, ch) :: h2) in
+  r_outs (step s2 (EData now' d') ch') = [].
+Proof. exact repeat_data_silent. Qed.
+Print Assumptions c01_repeat_data_silent.
+
+(* Data served from the cache in answer to an Interest goes to that Interest's face alone, once, with the token of that
+   Interest, and its name extends the Interest's name — in every state. *)
+Theorem c01_cs_hit_single_face : forall s now i ch, c01_cs_reply_ok i (r_outs (step s (EInterest now i) ch)) = true.
+Proof. exact cs_hit_single_face. Qed.
+Print Assumptions c01_cs_hit_single_face.
+
+(* non-vacuity: faces 1,2 local consumers, 3 non-local upstream.  /a/b (exact) from face 1 with token [9;9], /a (CanBePrefix) from
+   face 2 without token, and /a/b (exact) again from face 2 with token [7]: Data /a/b without token from face 3 matches
+   two PIT entries and is sent to face 1 once (token 9,9) and to face 2 twice (no token; token 7) — the pending table
+   predicts exactly these three copies; a second copy of the Data is sent to nobody. *)
+Example c01_example :
+  let fs := [{| f_id := 1; f_local := true; f_link := P2P |}; {| f_id := 2; f_local := true; f_link := P2P |};
+             {| f_id := 3; f_local := false; f_link := P2P |}] in
+  let s0 := with_fib (with_faces (init [] 6000000000) fs) [([(8, 1)], [(3, 0)])] [] in
+  let mk f n cbp tok nonce := {| i_face := f; i_name := n; i_cbp := cbp; i_mbf := false; i_nonce := Some nonce; i_life := None;
+                                 i_hop := None; i_hints := []; i_tok := tok; i_nhf := None |} in
+  let ch t := {| ch_tok := t; ch_tie := Some 3; ch_cs := None; ch_expired := [] |} in
+  let a := [(8, 1)] in let ab := [(8, 1); (8, 2)] in
+  let h := [(EInterest 10 (mk 1 ab false [9; 9] 100), ch 50); (EInterest 20 (mk 2 a true [] 101), ch 51);
+            (EInterest 30 (mk 2 ab false [7] 102), ch 52)] in
+  let d := {| d_face := 3; d_name := ab; d_fresh := None; d_tok := [] |} in
+  mono 0 (h ++ [(EData 40 d, ch 0)]) /\
+  (let '(s, sp, _) := run s0 [] 0 h in
+   length sp = 3%nat /\
+   map (fun o => (o_face o, o_tok o)) (r_outs (step s (EData 40 d) (ch 0))) = [(1, [9; 9]); (2, [7]); (2, [])]) /\
+  (let '(s2, _, _) := run s0 [] 0 (h ++ [(EData 40 d, ch 0)]) in r_outs (step s2 (EData 50 d) (ch 0)) = []).
+Proof.
+  cbv zeta. split; [|split].
+  - cbn. repeat split; intros ? H; inversion H; subst; discriminate.
+  - vm_compute. split; reflexivity.
+  - vm_compute. reflexivity.
+Qed.
